@@ -36,7 +36,7 @@ def check(run, replay):
     for i, f in enumerate(files):
         out = os.path.join(run.tmp, "acpres-%d.json" % i)
         try:
-            run.run_driver(binary, ["-beh", f, "-out", out] + (["-full"] if replay else ["-budget", "900s", "-full"] if thorough else ["-budget", "80s"]), timeout=4000)
+            run.run_driver(binary, ["-beh", f, "-out", out] + (["-full"] if replay else ["-budget", "500s", "-full"] if thorough else ["-budget", "80s"]), timeout=4000)
         except vlib.Crash as c:
             viol.append({"kind": "node-panic", "msg": "DefraDB died under an ACP request: %s\n%s" % (c.head, c.stack[:1500])})
             continue
